@@ -218,7 +218,11 @@ pub fn model(c: &Case) -> Option<Option<Vec<u8>>> {
 pub fn input_is_canonical(c: &Case, canon: &[u8]) -> bool {
   let b0: &[u8] = c.blobs.first().map(|b| &b[..]).unwrap_or(&[]);
   match c.target {
-    Target::SharksTryFrom | Target::AdssFromBytes | Target::StarShareFromBytes | Target::MessageFromBytes => canon == b0,
+    Target::SharksTryFrom => canon == b0,
+    // ... and of the shape honest parties produce: one value per point (the 16-byte sharing key is one
+    // element), a 32-byte tag, a ciphertext that can hold at least the measurement's length prefix
+    Target::AdssFromBytes | Target::StarShareFromBytes => canon == b0 && AdssShare::decode(b0).map(|a| a.s.ys.len() == 1).unwrap_or(false),
+    Target::MessageFromBytes => canon == b0 && Report::decode(b0).map(|r| r.share.s.ys.len() == 1 && r.tag.len() == 32 && r.ct.len() >= 4).unwrap_or(false),
     Target::LoadBytes => b0.len() == 4 + canon.len(),
     Target::LoadU32 | Target::AccessStructure => b0.len() == 4,
     _ => false,
